@@ -208,7 +208,102 @@ func Eq(a, b Term) Term {
 	return App(SBool, "=", a, b)
 }
 
-func Select(arr, idx Term, elem Sort) Term { return App(elem, "select", arr, idx) }
+// activeVC lets the array peephole look through named store terms (functions are verified one
+// at a time).
+var activeVC *VC
+
+// splitArgs splits the arguments of an application "(op a b c)".
+func splitArgs(s string) []string {
+	if len(s) < 2 || s[0] != '(' {
+		return nil
+	}
+	var out []string
+	depth := 0
+	start := -1
+	for i := 1; i < len(s)-1; i++ {
+		c := s[i]
+		switch {
+		case c == '|':
+			j := strings.IndexByte(s[i+1:], '|')
+			if j < 0 {
+				return nil
+			}
+			if depth == 0 && start < 0 {
+				start = i
+			}
+			i += j + 1
+			if depth == 0 && (i+1 >= len(s)-1 || s[i+1] == ' ') {
+				out = append(out, s[start:i+1])
+				start = -1
+			}
+		case c == '(':
+			if depth == 0 && start < 0 {
+				start = i
+			}
+			depth++
+		case c == ')':
+			depth--
+			if depth == 0 {
+				out = append(out, s[start:i+1])
+				start = -1
+			}
+		case c == ' ':
+			if depth == 0 && start >= 0 {
+				out = append(out, s[start:i])
+				start = -1
+			}
+		default:
+			if depth == 0 && start < 0 {
+				start = i
+			}
+		}
+	}
+	if start >= 0 {
+		out = append(out, s[start:len(s)-1])
+	}
+	return out
+}
+
+func Select(arr, idx Term, elem Sort) Term {
+	// peephole: select(store(a, i, v), i) = v, looking through named terms
+	a := arr.S
+	for k := 0; k < 4; k++ {
+		if activeVC != nil {
+			if d, ok := activeVC.nameDefs[a]; ok {
+				a = d
+			}
+		}
+		if !strings.HasPrefix(a, "(store ") {
+			break
+		}
+		args := splitArgs(a)
+		if len(args) != 4 {
+			break
+		}
+		if args[2] == idx.S {
+			return Term{args[3], elem}
+		}
+		// different integer literals: skip this store
+		if isIntLit(args[2]) && isIntLit(idx.S) {
+			a = args[1]
+			continue
+		}
+		break
+	}
+	return App(elem, "select", arr, idx)
+}
+
+func isIntLit(s string) bool {
+	if s == "" {
+		return false
+	}
+	for _, c := range s {
+		if c < '0' || c > '9' {
+			return false
+		}
+	}
+	return true
+}
 func Store(arr, idx, v Term) Term         { return App(arr.Sort, "store", arr, idx, v) }
 
 // symbol quoting
@@ -241,6 +336,7 @@ type VC struct {
 	defOf     map[int]string
 	mu        sync.Mutex
 	seenAssert map[string]bool
+	nameDefs  map[string]string
 }
 
 type WatchTerm struct {
@@ -284,6 +380,10 @@ func (vc *VC) Name(prefix string, t Term) Term {
 		return t
 	}
 	c := vc.Fresh(prefix, t.Sort)
+	if vc.nameDefs == nil {
+		vc.nameDefs = map[string]string{}
+	}
+	vc.nameDefs[c.S] = t.S
 	vc.defOf[len(vc.asserts)] = c.S
 	vc.asserts = append(vc.asserts, fmt.Sprintf("(assert (= %s %s))", c.S, t.S))
 	return c
